@@ -17,6 +17,7 @@ All theorems are about `genCfg`, the lexer configuration extracted from the tree
 import LLBuild.Props.C17Lex
 import LLBuild.Props.C17Load
 import LLBuild.Lemmas.NinjaParser
+import LLBuild.Lemmas.NinjaPrint
 
 namespace LLBuild.NinjaParser
 open LLBuild.NinjaLexer
@@ -446,3 +447,175 @@ example : TopReach genCfg exManifest
   TopReach.init (s0 := { lx := ⟨4, 1, 4⟩, mode := .none, tok := ⟨.KWRule, 0, 4, 1, 0⟩, evs := [], calls := [(.none, 0)] }) (by decide)
 
 end LLBuild.NinjaParser
+
+/-! ## C17 at byte level: the printer and the print / parse round trip
+
+`Model/NinjaPrint.lean` writes a declaration list as canonical Ninja text (`render`).  The theorems below close the
+gap left by the shape theorems above (which assume what the lexer delivers): for every `Printable` list the BYTES
+`render ds` go through the lexer model and the parser model back to exactly `ds`, without an error callback. -/
+
+namespace LLBuild.NinjaPrint
+open LLBuild.NinjaLexer LLBuild.NinjaParser
+open LLBuild.Generated.NinjaLexer (Kind)
+open LLBuild.NinjaLoader (Decl Binding)
+
+/-- **Stage (a): one token.**  `it` describes one lexer call of the parser: the mode it has set, whether a blank
+precedes the token, and the token's bytes — a word (identifier characters), a path body (`pathOK`: every `$`
+followed by a byte other than CR / LF, no white space, `:` or `|` otherwise; `#`, `=`, NUL and 0x80–0xFF are
+ordinary), a value body (`varOK`, no leading blank), `:`, `|`, `||`, `=`, newline, the two-blank indentation, or
+the end of the buffer.  If these bytes stand at the cursor `σ` (`buf.drop σ.pos = it.bytes ++ more`, any `buf`) and
+the context is right (`ItemOK`: the right mode, a blank in front only inside a line, the next byte delimits the
+token: not an identifier character after a word, white space / `:` / `|` after a path, `\n` after a value, not
+`|` after `|`, not `\r` after `\n`), then `lex` returns exactly the token covering the piece — kind, offset,
+length, line, column — and the cursor behind it.  A word gets kind Identifier in IdentifierSpecific mode and the
+kind of the keyword table in mode None (`wordKind`). -/
+theorem C17_lex_printed_token (buf : Bytes) (σ : St) (it : Item) (more : Bytes) (hok : ItemOK σ it more.head?)
+    (hdrop : buf.drop σ.pos = it.bytes ++ more) (hle : σ.pos ≤ buf.length) :
+    lex genCfg buf it.mode σ = .ok (it.tok σ, it.next σ) :=
+  lex_item hok hdrop hle
+
+/-- the same for a whole line: the lexer follows the token script of a list of items (`Follows`, the hypothesis of
+the shape theorems), and the token texts are the items' bytes -/
+theorem C17_lex_printed_line (buf : Bytes) (σ : St) (its : List Item) (rest : Bytes) (hok : ItemsOK σ its rest)
+    (hdrop : buf.drop σ.pos = layoutBytes its ++ rest) (hle : σ.pos ≤ buf.length) :
+    Follows genCfg buf σ (script σ its) (endSt σ its) ∧
+      (toks σ its).map (tokText buf) = its.map (fun it => it.piece.bytes) :=
+  ⟨(layout_follows its σ rest hok hdrop hle).1, tokText_items its σ rest hdrop hle⟩
+
+/-- a literal path, escaped (`$` in front of `$`, blank and `:`), is a path body, and the loader's `evalString`
+turns it back into the path (no variable is looked up, no error) -/
+theorem C17_escPath_roundtrip (p : Bytes) (lk : Bytes → NinjaLoader.Out) :
+    (literalPathOK p = true → pathTextOK (escPath p) = true) ∧ NinjaLoader.evalString lk (escPath p) = (p, []) := by
+  constructor
+  · intro h
+    simp only [literalPathOK, Bool.and_eq_true, Bool.not_eq_true', List.isEmpty_eq_false_iff, List.all_eq_true,
+      decide_eq_true_eq, decide_eq_false_iff_not] at h
+    obtain ⟨hne, hall⟩ := h
+    have hbody : ∀ q : Bytes, (∀ b ∈ q, b.toNat ≠ 124 ∧ ¬ (9 ≤ b.toNat ∧ b.toNat ≤ 13)) → pathOK (escPath q) = true := by
+      intro q
+      induction q with
+      | nil => intro _; rfl
+      | cons b t ih =>
+        intro hq
+        have hb := hq b List.mem_cons_self
+        have ht := ih (fun x hx => hq x (List.mem_cons_of_mem _ hx))
+        simp only [escPath, List.flatMap_cons] at ht ⊢
+        by_cases hs : b.toNat = 36 ∨ b.toNat = 32 ∨ b.toNat = 58
+        · rw [if_pos hs]
+          show pathOK (36 :: b :: _) = true
+          rw [pathOK_cons]
+          simp only [show (36 : UInt8).toNat = 36 from rfl, if_true, Bool.and_eq_true, decide_eq_true_eq]
+          exact ⟨⟨by omega, by omega⟩, ht⟩
+        · rw [if_neg hs]
+          show pathOK (b :: _) = true
+          rw [pathOK_cons, if_neg (by omega)]
+          simp only [Bool.and_eq_true, Bool.not_eq_true', isStopPath, decide_eq_false_iff_not]
+          exact ⟨by omega, ht⟩
+    simp only [pathTextOK, Bool.and_eq_true, Bool.not_eq_true', List.isEmpty_eq_false_iff]
+    refine ⟨?_, hbody p hall⟩
+    cases p with
+    | nil => exact absurd rfl hne
+    | cons b t =>
+      simp only [escPath, List.flatMap_cons]
+      split <;> simp
+  · induction p with
+    | nil => simp [escPath, NinjaLoader.evalString, NinjaLoader.evalGo]
+    | cons b t ih =>
+      simp only [escPath, List.flatMap_cons] at ih ⊢
+      by_cases hs : b.toNat = 36 ∨ b.toNat = 32 ∨ b.toNat = 58
+      · rw [if_pos hs]
+        have hb : b = 36 ∨ b = 32 ∨ b = 58 := by
+          rcases hs with h | h | h
+          · exact Or.inl (u8_eq_of_toNat (n := 36) (by simpa using h))
+          · exact Or.inr (Or.inl (u8_eq_of_toNat (n := 32) (by simpa using h)))
+          · exact Or.inr (Or.inr (u8_eq_of_toNat (n := 58) (by simpa using h)))
+        show NinjaLoader.evalString lk (36 :: b :: _) = _
+        rw [NinjaLoader.C17_escape_char lk b hb]
+        show NinjaLoader.Out.emit ([b], []) (NinjaLoader.evalString lk (List.flatMap _ t)) = _
+        rw [ih]
+        rfl
+      · rw [if_neg hs]
+        have hb : b ≠ 36 := by intro h; subst h; simp at hs
+        show NinjaLoader.evalString lk (b :: _) = _
+        rw [NinjaLoader.C17_literal lk b hb]
+        show NinjaLoader.Out.emit ([b], []) (NinjaLoader.evalString lk (List.flatMap _ t)) = _
+        rw [ih]
+        rfl
+
+/-- **Stage (b): one statement.**  At the start of a printed declaration `d` (the parser is in mode None with the first
+word of `render (d :: ds)` as look-ahead: `Ctx`), `parseDecl` returns, stands in the same way in front of `render ds`,
+reports no error, and the loader-side reading of its callbacks (`declStep`: token texts = the printed substrings,
+rule / build / pool closed at their `End…Decl`) adds exactly `d`. -/
+theorem C17_print_parse_statement (buf : Bytes) (d : Decl) (ds : List Decl) (s : PSt) (σ0 : St) (hd : declOK d = true)
+    (hds : Printable ds = true) (c : Ctx buf s σ0 (d :: ds)) :
+    ∃ s' σ1 new, parseDecl genCfg buf s = .ok s' ∧ Ctx buf s' σ1 ds ∧ s'.evs = new ++ s.evs ∧ (∀ m t, Ev.error m t ∉ new) ∧
+      ∀ A : List Decl, new.reverse.foldl (declStep buf) ⟨A, none⟩ = ⟨d :: A, none⟩ :=
+  printed_decl d ds s σ0 hd hds c
+
+/-- **Stage (c): the byte-level round trip, all printable declaration lists.**  `Printable ds` (decidable): every
+top-level binding name is a non-empty identifier that is not a keyword literal (a keyword at the start of a line
+starts a declaration), every other name (rule, pool, the rule of a build statement, indented binding names —
+keywords allowed there) a non-empty identifier; every path non-empty with `pathOK`; every value non-empty, without
+leading blank, with `varOK`; build statements have at least one output and split indices within their inputs;
+`default` has at least one target.  Then lexing and parsing the bytes `render ds` (lexer modes, keyword recognition,
+`$`-escapes, high bytes and all) yields callbacks whose declaration stream is exactly `ds` — the token payloads are
+the printed substrings — and no error callback. -/
+theorem C17_print_parse_roundtrip (ds : List Decl) (h : Printable ds = true) :
+    ∃ evs, parse genCfg (render ds) = .ok evs ∧ declsOf (render ds) evs = ds ∧ ∀ m t, Ev.error m t ∉ evs :=
+  parse_printed ds h
+
+open NinjaLoader in
+/-- **Stage (d): printed text means what the reference semantics says.**  For a tree of printable declaration
+lists `fs` (absolute path ↦ declarations) and a printable main list `ds`: running the pure-Lean pipeline lexer →
+parser → loader on the RENDERED BYTES is running the loader on the lists themselves, and wherever the reference
+semantics (Model/NinjaSpec.lean) gives them a meaning `m`, the loaded manifest is `m` and no error is reported. -/
+theorem C17_manifest_text_means_spec (P : Params) (fs : List (Bytes × List Decl)) (depth : Nat) (ds : List Decl)
+    (hfs : ∀ f ∈ fs, Printable f.2 = true) (h : Printable ds = true) :
+    loadBytes genCfg Cfg.fixed P (fs.map fun f => (f.1, render f.2)) depth (render ds) = .ok (load Cfg.fixed P fs depth ds) ∧
+    ∀ m, Spec.load P fs depth ds = some m →
+      (load Cfg.fixed P fs depth ds).manifest = m ∧ (load Cfg.fixed P fs depth ds).errs = [] := by
+  have hfiles : parseFiles genCfg (fs.map fun f => (f.1, render f.2)) = .ok fs := by
+    induction fs with
+    | nil => rfl
+    | cons f r ih =>
+      obtain ⟨evs, he, hd, _⟩ := parse_printed f.2 (hfs f List.mem_cons_self)
+      have := ih (fun g hg => hfs g (List.mem_cons_of_mem _ hg))
+      simp only [List.map_cons, parseFiles, parseDecls, he, Res.ok_bind, Res.pure_eq_ok, hd, this]
+  obtain ⟨evs, he, hd, _⟩ := parse_printed ds h
+  refine ⟨by simp [loadBytes, parseDecls, hfiles, he, hd], fun m hm => ?_⟩
+  exact C17_eval_agrees P fs depth ds m hm
+
+/-! ### non-vacuity -/
+
+/-- rule, build with all three input classes and a binding, top-level binding with escapes and a high byte, default,
+include — with names that are keywords where that is allowed -/
+def exDecls : List Decl :=
+  [.binding ⟨[120], [97, 36, 32, 98, 32, 36, 123, 121, 125, 255]⟩,                      -- x = a$ b ${y}\xff
+   .rule [98, 117, 105, 108, 100] [⟨[99, 111, 109, 109, 97, 110, 100], [99, 99, 32, 36, 105, 110]⟩],  -- rule build / command = cc $in
+   .build [98, 117, 105, 108, 100] [[111, 36, 32, 49], [111, 50]] [[97], [98, 36, 58, 99], [35, 100]] 1 1
+     [⟨[112, 111, 111, 108], [118]⟩],                                                   -- build o$ 1 o2: build a | b$:c || #d / pool = v
+   .default [[111, 50]],
+   .subninja [115, 46, 110, 105, 110, 106, 97]]
+
+example : Printable exDecls = true := by decide
+
+example : render exDecls =
+    [120,32,61,32,97,36,32,98,32,36,123,121,125,255,10,
+     114,117,108,101,32,98,117,105,108,100,10,32,32,99,111,109,109,97,110,100,32,61,32,99,99,32,36,105,110,10,
+     98,117,105,108,100,32,111,36,32,49,32,111,50,58,32,98,117,105,108,100,32,97,32,124,32,98,36,58,99,32,124,124,32,35,100,10,
+     32,32,112,111,111,108,32,61,32,118,10,
+     100,101,102,97,117,108,116,32,111,50,10,
+     115,117,98,110,105,110,106,97,32,115,46,110,105,110,106,97,10] := by decide
+
+-- a top-level binding called `rule` is not printable (it would start a rule declaration); an indented one is
+example : Printable [.binding ⟨[114, 117, 108, 101], [49]⟩] = false := by decide
+example : Printable [.pool [112] [⟨[114, 117, 108, 101], [49]⟩]] = true := by decide
+-- not printable: a path with a raw blank, a value with a leading blank, an empty value, `$` at the end
+example : Printable [.default [[97, 32, 98]]] = false := by decide
+example : Printable [.binding ⟨[120], [32, 49]⟩] = false := by decide
+example : Printable [.binding ⟨[120], []⟩] = false := by decide
+example : Printable [.binding ⟨[120], [97, 36]⟩] = false := by decide
+
+example : escPath [97, 32, 36, 58, 255] = [97, 36, 32, 36, 36, 36, 58, 255] := by decide
+
+end LLBuild.NinjaPrint
